@@ -85,8 +85,13 @@ func mathCosh(L *LState) int {
 	return 1
 }
 
+// radiansPerDegree is lmathlib.c's RADIANS_PER_DEGREE: the double PI divided
+// by 180 in double arithmetic.  math.deg and math.rad use this one constant,
+// so no intermediate product can overflow.
+const radiansPerDegree = float64(math.Pi) / 180
+
 func mathDeg(L *LState) int {
-	L.Push(LNumber(float64(L.CheckNumber(1)) * 180 / math.Pi))
+	L.Push(LNumber(float64(L.CheckNumber(1)) / radiansPerDegree))
 	return 1
 }
 
@@ -189,7 +194,7 @@ func mathPow(L *LState) int {
 }
 
 func mathRad(L *LState) int {
-	L.Push(LNumber(float64(L.CheckNumber(1)) * math.Pi / 180))
+	L.Push(LNumber(float64(L.CheckNumber(1)) * radiansPerDegree))
 	return 1
 }
 
